@@ -49,8 +49,8 @@ CHECKS = {
             "All keys with generated arguments plus copy programs over D : Ḃ ¾ variables register global array.",
             "A lazy list argument may grow its cache but must denote the same sequence."),
     "C11": ("exploration",
-            "read-history monitor: unique inputs, programs over explicit/implicit reads at top level and inside lambdas/functions; final stack and stdout vs the reference model, direct cyclic-stream check on recorded read events, event trace vs model",
-            "Exhaustive over a 9-symbol alphabet up to length 4/5 x 7 input lists, random histories to length 12.",
+            "read-history monitor: unique inputs, programs over explicit/implicit reads (element pops, ~ on a short stack) at top level and inside lambdas/functions; final stack and stdout vs the reference model, direct cyclic-stream check on recorded read events, event trace vs model",
+            "Exhaustive over a 12-symbol alphabet up to length 4/5 x 7 input lists, random histories to length 12.",
             "Read events are recorded by rebinding get_input in the vyxal modules (secondary monitor)."),
     "C12": ("exploration",
             "depth-tuple monitors (at exit and at every top-level statement boundary via sys.monitoring LINE events) plus public probes (n, exec probe, implicit-read probe) spliced into break-heavy generated programs and decided by the reference model",
@@ -78,11 +78,11 @@ CHECKS = {
             "Naive definitions are the oracle."),
     "C18": ("exploration",
             "shape-whitelist + taint monitor on transpile output: statement skeletons and identifier vocabulary derived at run time from a benign corpus of the same tree; hostile payloads at every text position; compile audit events counted",
-            "Exhaustive short payloads at 22 positions, all raw strings of length<=4, random code-page/Unicode strings.",
+            "Exhaustive short payloads at 22 positions, all raw strings of length<=4, random code-page/Unicode strings; transpile's own parameters (dict_compress, variables_as_digraphs) in both tiers.",
             "Whitelist derived from the tree under test (a legitimate refactor moves both sides); held-out benign programs guard against an over-tight whitelist."),
     "C19": ("exploration",
             "audit-event trace checker (compile/exec/open/os.system/subprocess/socket), canary in builtins, stdout + fd 1 recorders, output-record comparison with the reference model, failpoints raising at the k-th call of element functions",
-            "Sampled model-determined programs, taint programs through E † Ė and inputs, fault injection; positive control offline.",
+            "Sampled model-determined programs, taint programs through E † Ė and inputs, Vyxal-source break-outs at every name position, offline runs before the online ones in the same process, fault injection; positive control offline.",
             "sympy-backed string overloads are outside the property; taint marker must not collide with repo identifiers."),
     "C20": ("exploration",
             "exhaustive execution of code-page converters, lexer, parser and transpiler on every byte pair and table key; every byte string of length <= 2 as a program file in both encodings through execute_vyxal with the transpiler input recorded; every element run directly and through a modifier (arity in use); ast read of the table source for duplicate keys",
